@@ -129,6 +129,13 @@ func buildC18Bases(quick bool) []c18Base {
 			_, _ = a.Write(patternBytes(20+i, 1025))
 			_, _ = b.Write(patternBytes(40+i, 1024))
 		}
+		// exactly four extents each: the extent header in the inode is full (entries == max)
+		c4, _ := fs.OpenFile("four-a", os.O_CREATE|os.O_RDWR|os.O_APPEND)
+		d4, _ := fs.OpenFile("four-b", os.O_CREATE|os.O_RDWR|os.O_APPEND)
+		for i := 0; i < 4; i++ {
+			_, _ = c4.Write(patternBytes(60+i, 1025))
+			_, _ = d4.Write(patternBytes(70+i, 1024))
+		}
 		name := "ext4-1MiB"
 		if nocsum {
 			name += "-nocsum"
@@ -379,14 +386,18 @@ func newC18Target(quick bool) *c18Target {
 				if orig == 0 && (quick && o%32 != 0 || !quick && o%8 != 0) {
 					continue
 				}
-				vals := []byte{0x00, 0x01, 0x7F, 0x80, 0xFF, orig ^ 0x01, orig ^ 0x80}
+				// (orig+1 / orig-1: one more or one fewer than what the field says - a count one above its capacity, a length
+				// one beyond its buffer)
+				vals := []byte{0x00, 0x01, 0x7F, 0x80, 0xFF, orig ^ 0x01, orig ^ 0x80, orig + 1, orig - 1}
 				if quick {
-					vals = []byte{0x00, 0xFF, orig ^ 0x01, orig ^ 0x80}
+					vals = []byte{0x00, 0xFF, orig ^ 0x01, orig ^ 0x80, orig + 1}
 				}
+				seenV := map[byte]bool{orig: true}
 				for _, v := range vals {
-					if v == orig {
+					if seenV[v] {
 						continue
 					}
+					seenV[v] = true
 					t.cases = append(t.cases, mkC18Case(bi, o, []byte{v}, false, 0))
 					if b.Fix != nil && o >= 1024 && o < 2044 {
 						t.cases = append(t.cases, mkC18Case(bi, o, []byte{v}, true, 1))
